@@ -248,6 +248,18 @@ pub static OPS: &[Op] = &[
         let (x, y) = (a[0].total(), a[1].total());
         (format!("{:?} eq={} lt={}", e.cmp(&f), e == f, e < f), format!("{:?} eq={} lt={}", x.cmp(&y), x == y, x < y))
     }},
+    Op { name: "epoch_eq_symmetric", sig: &[Ty::Dur, Ty::UTs, Ty::UTs], pre: |a| {
+        // pairs symmetric about the reference epoch of the left operand's scale, the right one given in another scale
+        let x = a[0].total();
+        x.abs() < 1000 * NPC && conv_ok(-x, a[1].ts(), a[2].ts())
+    }, f: |a| {
+        let x = a[0].total();
+        let e = Epoch::from_duration(a[0].dur(), a[1].ts());
+        let other_total = -x + scale_zero(a[1].ts()).unwrap() - scale_zero(a[2].ts()).unwrap();
+        let (c, n) = parts_of(other_total);
+        let f = Epoch::from_duration(Duration::from_parts(c, n), a[2].ts());
+        (format!("eq={} eq'={} ne={} cmp={:?}", e == f, f == e, e != f, e.cmp(&f)), format!("eq={} eq'={} ne={} cmp={:?}", x == 0, x == 0, x != 0, x.cmp(&-x)))
+    }},
     // ---------------------------------------------------------------- C14 epoch snapping
     Op { name: "epoch_floor_ceil_round", sig: &[Ty::Dur, Ty::Ts, Ty::Dur], pre: no_d1_snap, f: |a| {
         let e = Epoch::from_duration(a[0].dur(), a[1].ts());
@@ -319,13 +331,23 @@ pub static OPS: &[Op] = &[
         (got, exp)
     }},
     // ---------------------------------------------------------------- C08 gregorian construction
-    Op { name: "gregorian_reject", sig: &[Ty::I32, Ty::U8, Ty::U8, Ty::U8, Ty::U8, Ty::U8, Ty::U32, Ty::Ts], pre: |a| a[0].int().abs() <= 100_000, f: |a| {
+    // known finding D9 (30/31 February of leap years accepted) is excluded from the search region
+    Op { name: "gregorian_reject", sig: &[Ty::I32, Ty::U8, Ty::U8, Ty::U8, Ty::U8, Ty::U8, Ty::U32, Ty::Ts], pre: |a| a[0].int().abs() <= 100_000 && !(a[1].int() == 2 && is_leap(a[0].int()) && (30..=31).contains(&a[2].int())), f: |a| {
         let (y, mo, d, h, mi, s, ns) = (a[0].int(), a[1].int(), a[2].int(), a[3].int(), a[4].int(), a[5].int(), a[6].int());
         let r = Epoch::maybe_from_gregorian(y as i32, mo as u8, d as u8, h as u8, mi as u8, s as u8, ns as u32, a[7].ts());
         let valid = strict_valid(y, mo, d, h, mi, s, ns);
         let reject = must_reject(y, mo, d, h, mi, s, ns);
         let verdict = if valid && r.is_err() { "valid date-time rejected".to_string() }
             else if reject && r.is_ok() { "invalid date-time accepted".to_string() } else { "ok".to_string() };
+        (verdict, "ok".to_string())
+    }},
+    Op { name: "gregorian_leap_second", sig: &[Ty::U8, Ty::Bool, Ty::Ts], pre: always, f: |a| {
+        // second = 60 at 23:59 on 30 June / 31 December of 1960 + (n mod 70): accepted exactly on the IERS leap-second days
+        let y = 1960 + (a[0].int() % 70);
+        let (mo, d) = if a[1].boolean() { (6, 30) } else { (12, 31) };
+        let r = Epoch::maybe_from_gregorian(y as i32, mo as u8, d as u8, 23, 59, 60, 0, a[2].ts());
+        let verdict = if strict_valid(y, mo, d, 23, 59, 60, 0) && r.is_err() { format!("leap second {}-{}-{}T23:59:60 rejected", y, mo, d) }
+            else if must_reject(y, mo, d, 23, 59, 60, 0) && r.is_ok() { format!("{}-{}-{}T23:59:60 accepted although no leap second was inserted", y, mo, d) } else { "ok".to_string() };
         (verdict, "ok".to_string())
     }},
     Op { name: "gregorian_build", sig: &[Ty::I32, Ty::U8, Ty::U8, Ty::U8, Ty::U8, Ty::U8, Ty::U32, Ty::Ts], pre: |a| {
@@ -335,6 +357,29 @@ pub static OPS: &[Op] = &[
         let r = Epoch::maybe_from_gregorian(y as i32, mo as u8, d as u8, h as u8, mi as u8, s as u8, ns as u32, a[7].ts());
         let exp = day_index(y, mo, d) * DAY_NS + h * 3_600_000_000_000 + mi * 60_000_000_000 + s * 1_000_000_000 + ns - greg_zero(a[7].ts());
         (match r { Ok(e) => format!("{} {:?}", show_d(e.duration), e.time_scale), Err(_) => "Err".to_string() }, format!("{} {:?}", show_total(exp), a[7].ts()))
+    }},
+    // ---------------------------------------------------------------- C17 Duration-valued JD / MJD / J2000 views
+    Op { name: "jd_views", sig: &[Ty::Dur, Ty::UTs], pre: |a| a[0].total().abs() < 30_000 * NPC && conv_ok(a[0].total(), a[1].ts(), TimeScale::TT), f: |a| {
+        let e = Epoch::from_duration(a[0].dur(), a[1].ts());
+        let tai = a[0].total() + scale_zero(a[1].ts()).unwrap();
+        let tt = tai + 32_184_000_000;
+        let mjd = 15_020 * DAY_NS;
+        let jd = 2_415_020 * DAY_NS + DAY_NS / 2;
+        (format!("{} {} {} {}", show_d(e.to_jde_tai_duration()), show_d(e.to_jde_tt_duration()), show_d(e.to_mjd_tt_duration()), show_d(e.to_tt_since_j2k())),
+         format!("{} {} {} {}", show_total(tai + jd), show_total(tt + jd), show_total(tt + mjd), show_total(tt - 3_155_716_800 * 1_000_000_000)))
+    }},
+    Op { name: "unix_views", sig: &[Ty::Dur, Ty::Ts], pre: |a| a[0].total().abs() < 100 * NPC && a[1].ts() != TimeScale::ET && a[1].ts() != TimeScale::TDB, f: |a| {
+        // relational: the UNIX view is the UTC elapsed time (as the crate itself computes it) shifted by 2 208 988 800 s.
+        // The Duration-valued accessor is private; the f64 view is compared to within a millisecond.
+        let e = Epoch::from_duration(a[0].dur(), a[1].ts());
+        let (uc, un) = e.to_utc_duration().to_parts();
+        let ut = uc as i128 * NPC + un as i128;
+        let k: i128 = 2_208_988_800 * 1_000_000_000;
+        let want_s = ((ut - k) as f64) / 1e9;
+        let got_s = e.to_unix_seconds();
+        let back = Epoch::from_unix_duration(a[0].dur());
+        let v = if (got_s - want_s).abs() < 1e-3 { "unix ok".to_string() } else { format!("to_unix_seconds = {} but UTC elapsed - 2208988800 s = {}", got_s, want_s) };
+        (format!("{} {} {:?}", v, show_d(back.duration), back.time_scale), format!("unix ok {} UTC", show_total(a[0].total() + k)))
     }},
     // ---------------------------------------------------------------- C16 weekdays of epochs
     Op { name: "epoch_weekday", sig: &[Ty::Dur, Ty::UTs], pre: |a| conv_ok(a[0].total(), a[1].ts(), TimeScale::TAI), f: |a| {
